@@ -5,10 +5,10 @@
 //	forall data file D, query q, client c:  answer(cdb(D), q, c) == answer(rdb-v1(D), q, c) == answer(rdb-v2(D), q, c)
 //
 // (rcode, AA, and the answer/authority/additional sections as sets of records).
-// BOUND: D = a base zone plus every subset of size <= 2 (thorough: <= 3) of 12 optional building blocks
+// BOUND: D = a base zone plus every subset of size <= 2 (thorough: <= 3) of 14 optional building blocks
 // (located and global addresses, wildcards at two depths, a delegation with located and global NS, a child zone,
-// CNAME, TXT, a deep name, a name with a non-wildcard-safe label); q over 17 names x 6 types; c over three
-// clients (no location, location lA, location lB). Labelled bounded; never counted as proved.
+// CNAME, TXT, a deep name, a name with a non-wildcard-safe label, an exact and a wildcard resolver map with their own subnet table); q over
+// 17 names x 6 types; c over four clients (no location, lA, lB, and one only the mapped table locates). Labelled bounded; never counted as proved.
 package dnsserver
 
 import (
@@ -48,6 +48,11 @@ var vbBlocks = []string{
 	"+a.b.c.example.com,3.3.3.3,180,,\n",
 	"+*.c.example.com,3.3.3.4,180,,lA\n",
 	"&example.com,,d.ns.example.com,172800,,lB\n+d.ns.example.com,5.5.5.8,172800,,\n",
+	// an EXACT resolver map on the apex (applies to the apex only, never to names below it) with its own subnet
+	// table, and a record for the location only that table yields
+	"Mexample.com,m1\n%lC,10.3.0.0/16,m1\n+www.example.com,9.9.9.9,180,,lC\n'example.com,apex for lC,300,,lC\n",
+	// a WILDCARD resolver map below c.example.com (applies to every name below it) with the same table
+	"M*.c.example.com,m1\n%lC,10.3.0.0/16,m1\n+a.b.c.example.com,9.9.9.8,180,,lC\n",
 }
 
 type vbBackend struct {
@@ -103,7 +108,7 @@ func TestVerifBoundedBackendsAgree(t *testing.T) {
 		"x.wild.example.com.", "y.x.wild.example.com.", "bad!.wild.example.com.", "wild.example.com.", "sub.example.com.", "host.sub.example.com.",
 		"a.b.c.example.com.", "b.c.example.com.", "z.c.example.com.", "sub2.example.com.", "www.sub2.example.com."}
 	types := []uint16{dns.TypeA, dns.TypeAAAA, dns.TypeNS, dns.TypeSOA, dns.TypeTXT, dns.TypeCNAME}
-	clients := []string{"1.2.3.4", "10.1.0.1", "10.2.0.1"}
+	clients := []string{"1.2.3.4", "10.1.0.1", "10.2.0.1", "10.3.0.1"}
 	root := t.TempDir()
 	cases, fails, sets := 0, 0, 0
 	var idx []int
